@@ -5,7 +5,10 @@ import SlipVerif.Driver.Util
      comp run <fuel> <form>*      the history through compilation (`runC` from the empty store)
      comp direct <fuel> <form>*   the history evaluated directly (`run` from the empty table)
    forms (Lisp text, names are [a-z0-9-]+):
-     (defun f (p* [&optional (o int)*] [&key (k int)*] [&aux (x expr)*]) body) | (undef f) | (again j) | expr
+     (defun f (p* [&optional (o int)*] [&key (k int)*] [&aux (x expr)*]) body)
+     | (defun-in ((c expr)*) f (lambda-list) body)     = (let ((c expr)*) (defun f …))
+     | (undef f) | (again j) | expr
+     function names may be spelled in any letter case and with a package prefix (pkg::name)
      expr = int | var | :kw | (+ a b) (- a b) (* a b) (< a b) (= a b) | (if c t e)
           | (let ((x v)) b) | (let* ((x v)*) b) | (f arg*)
    reply: ok <out>*   out = i:<int> | nil | t | y:<name> | k:<name> | e:<class> | timeout -/
@@ -172,11 +175,22 @@ def lambdaList : Nat → List SExp → Sig → List (String × Expr) → Option 
     | none => none
   | _, _, _, _ => none
 
+def bindsOf : List SExp → Option (List (String × Expr))
+  | [] => some []
+  | x :: xs =>
+    match auxOf x, bindsOf xs with
+    | some b, some bs => some (b :: bs)
+    | _, _ => none
+
 def formOf : SExp → Option Form
   | .list [.atom "defun", .atom f, .list ps, b] =>
     match lambdaList 0 ps ⟨[], [], []⟩ [], exprOf b with
-    | some (sig, aux), some b => some (.defun f ⟨sig, aux, b⟩)
+    | some (sig, aux), some b => some (.defun f [] ⟨sig, aux, b, []⟩)
     | _, _ => none
+  | .list [.atom "defun-in", .list binds, .atom f, .list ps, b] =>
+    match bindsOf binds, lambdaList 0 ps ⟨[], [], []⟩ [], exprOf b with
+    | some bs, some (sig, aux), some b => some (.defun f bs ⟨sig, aux, b, []⟩)
+    | _, _, _ => none
   | .list [.atom "undef", .atom f] => some (.undef f)
   | .list [.atom "again", .atom j] => j.toNat?.map .again
   | x => (exprOf x).map .expr
